@@ -27,12 +27,29 @@
 (*   tree     data-driven call graph: arg selects one of TREES (every ordered rooted   *)
 (*            tree up to a size bound, with a flag per node that makes the call of    *)
 (*            the last child a tail call); many activations of Node live at once      *)
+(*   lend,    a procedure lends its OWN local (da) and its OWN parameter (dw) by        *)
+(*   lendt    reference to another procedure, which reads and writes through the refs    *)
+(*            and then re-enters the owner (mutual recursion through the borrower):      *)
+(*            `lend` with call + return at the next label, `lendt` with a tail call.     *)
+(*            Meaning of a reference to a procedure variable (the meaning the compiler   *)
+(*            gives it: PGo's PlusCal back end specialises the callee per ref argument   *)
+(*            and substitutes the referenced variable for the parameter; the Go runtime  *)
+(*            passes the resource NAME "Lend.da" and dereferences it at every access):  *)
+(*            as in `ref`, a reference is the name of the referenced cell, here the      *)
+(*            name of the procedure variable; Deref / WriteRef select the variable by    *)
+(*            that name.  The borrower therefore operates on the owner's CURRENT         *)
+(*            variable; when the owner is re-entered, the pushed frame holds the value   *)
+(*            the variable has at the time of the call (including what was written       *)
+(*            through the ref) and the return restores it.                               *)
 (****************************************************************************)
 EXTENDS Integers, Sequences, TLC, ProcsData
 
 (* --algorithm Procs {
   variables prog \in PROGS, arg \in ArgsOf(prog),
             res = 1, out = << >>, mem = [g1 |-> 0, g2 |-> 0];
+
+  \* write through a reference to a variable of Lend (lend, lendt)
+  macro WriteRef(zref, zval) { if (zref = "da") { da := zval; } else { dw := zval; } }
 
   \* ---------------------------------------------------------------- fact
   procedure Fact(n)
@@ -165,6 +182,25 @@ EXTENDS Integers, Sequences, TLC, ProcsData
         goto t1;
   }
 
+  \* ---------------------------------------------------------------- lend, lendt (own variables lent by reference)
+  procedure Lend(dn, dw, dt)
+    variables da = dn * 10;
+  {
+    d1: if (dn = 0) { out := Append(out, << 0, dw, da >>); return; }
+        else { call Borrow("da", "dw", dn, dt); };
+    d2: out := Append(out, << dn, dw, da >>);
+        return;
+  }
+  procedure Borrow(wx, wy, wm, wt)
+  {
+    w1: WriteRef(wx, Deref(wx, da, dw) + wm);
+    w2: WriteRef(wy, Deref(wy, da, dw) * 2 + Deref(wx, da, dw));
+    w3: if (wt) { call Lend(wm - 1, Deref(wy, da, dw) + 1, wt); return; }
+        else { call Lend(wm - 1, Deref(wy, da, dw) + 1, wt); };
+    w4: out := Append(out, << -wm, Deref(wx, da, dw), Deref(wy, da, dw) >>);
+        return;
+  }
+
   {
     m0: if (prog = "fact") { call Fact(arg); }
         else if (prog = "evenodd") { call Even(arg); }
@@ -172,6 +208,8 @@ EXTENDS Integers, Sequences, TLC, ProcsData
         else if (prog = "tail") { call Outer(arg); }
         else if (prog = "nest") { call N1(arg); }
         else if (prog = "ref") { call Both("g1", "g2", arg); }
+        else if (prog = "lend") { call Lend(arg, 7, FALSE); }
+        else if (prog = "lendt") { call Lend(arg, 7, TRUE); }
         else { call Node(arg, 1); };
     m1: res := res + 1;
   }
